@@ -285,6 +285,12 @@ func (p *Parser) parseVP8XChunks(buf []byte) error {
 		buf = buf[chunkTotal:]
 	}
 
+	// A still image without its image chunk is incomplete (e.g. a file cut
+	// between chunks): report it instead of succeeding with no frame.
+	if !isAnim && len(p.frames) == 0 {
+		return ErrTruncated
+	}
+
 	return nil
 }
 
